@@ -134,3 +134,53 @@ def boundary_cases():
     out.append("se 22 1 0 rx:0:m rx:1:m rx:0:g adv:1000 prep adv:1000 prep adv:3000 prep adv:1000 prep")
     out.append("se 23 1 1 rx:0:m rx:1:g rx:2:g rx:3:m adv:5000 prep rx:4:g free")
     return out
+
+
+def gen_client_history(r):
+    """client sessions: 'sc <seed> <op>*'"""
+    nslots = r.choice([1, 1, 2, 3, 4, 6])
+    nops = r.choice([4, 8, 14, 24, 40])
+    ops = []
+    advs = [1, 1000, 2000, 3000, 6000, 12000, 24000, 48000, 93000, 100000]
+    while len(ops) < nops:
+        i = r.randrange(nslots)
+        x = r.random()
+        if x < 0.22:
+            ops.append("new:%d" % i)
+        elif x < 0.45:
+            ops.append("send:%d:%s" % (i, r.choice("cccn")))
+        elif x < 0.58:
+            ops.append("%s:%d" % (r.choice(["resp", "resp", "resp", "rst"]), i))
+        elif x < 0.66:
+            ops.append("ref:%d" % i)
+        elif x < 0.80:
+            ops.append("rel:%d" % i)
+        elif x < 0.82:
+            ops.append("relall")
+        else:
+            ops.append("adv:%d" % r.choice(advs))
+            ops.append("prep")
+    explicit = False
+    if r.random() < 0.5:
+        ops = ops[:r.randrange(1, len(ops) + 1)]
+        if r.random() < 0.5:
+            ops.append("relall")
+        ops.append("free")
+        explicit = True
+    return "sc %d %s" % (r.randrange(1, 1 << 30), " ".join(ops)), {
+        "slots": nslots, "explicit_free": explicit, "nops": len(ops)}
+
+
+def client_boundary_cases():
+    return [
+        # the application lets go while a Confirmable is in flight; the answer ends the session
+        "sc 31 new:0 send:0:c rel:0 resp:0",
+        # ... or the last retransmission does (2 s * 1.5 * 31 at most)
+        "sc 32 new:0 send:0:c rel:0 adv:3000 prep adv:6000 prep adv:12000 prep adv:24000 prep adv:48000 prep adv:100000 prep",
+        # a Reset
+        "sc 33 new:0 send:0:c rel:0 rst:0 new:0 send:0:n rel:0",
+        # teardown with a request in flight, with and without the application's reference
+        "sc 34 new:0 send:0:c new:1 send:1:c rel:1 free",
+        "sc 35 new:0 ref:0 rel:0 send:0:c rel:0 new:0 send:0:c send:0:c resp:0 rel:0 resp:0",
+        "sc 36 new:0 new:1 new:2 rel:1 send:0:c send:2:c relall adv:1000 prep resp:2 resp:0",
+    ]
